@@ -276,6 +276,23 @@ func c12Scenarios(tier string) []scenario {
 		}
 		scs = append(scs, writerScenario(in, r, nil, false)) // Close without any Write
 	}
+	// size thresholds: a stylesheet of ~20 kB cut into (a, b, rest) for every ordered pair of
+	// lengths around the usual buffer sizes; a wrapper that buffers, coalesces or reorders
+	// writes by size shows up here and nowhere among the short inputs (Reader is left out:
+	// its pipe hands over one minifier write per read, thousands of scheduling points per run)
+	big := bigCSS()
+	bigIn := input{"text/css", string(big)}
+	bigRef := reference("text/css", big)
+	lens := []int{1, 18, 511, 512, 513, 4095, 4096, 4097, 8192}
+	for i, a := range lens {
+		for j, b := range lens {
+			cs := [][]byte{big[:a], big[a : a+b], big[a+b:]}
+			scs = append(scs, writerScenario(bigIn, bigRef, cs, false))
+			if thorough || (i+j)%3 == 0 {
+				scs = append(scs, respScenario("Middleware", "text/css", "/x", "", cs, false, true))
+			}
+		}
+	}
 	// Reader: source chunking × consumer read sizes
 	for _, in := range c12inputs {
 		r := reference(in.mt, []byte(in.in))
@@ -335,4 +352,14 @@ func runC12(tier string, shard, shards int) result {
 		res.Extra["bytes_string_calls"] = n
 	}
 	return res
+}
+
+// bigCSS is a stylesheet of about 20 kB whose minified form differs from it everywhere.
+func bigCSS() []byte {
+	var b bytes.Buffer
+	b.WriteString("@charset \"utf-8\";\n")
+	for i := 0; b.Len() < 20000; i++ {
+		fmt.Fprintf(&b, ".rule-%03d { margin : 0px ; color : #ff0000 }\n", i)
+	}
+	return b.Bytes()
 }
